@@ -72,6 +72,7 @@ RegionsAll   == {AllRegions[n] : n \in DOMAIN AllRegions}
 RegionsQuick == {AllRegions[n] : n \in {"circle2", "ellipseC", "circleH", "rect", "rectH", "boxC",
                                         "triC", "triH", "tetC", "shell", "ball2"}}
 
+RegionsCurved == {AllRegions[n] : n \in {"ellipseC", "circleH", "rectH", "triC", "triH"}}
 RegionsPairs == {AllRegions[n] : n \in {"ellipseC", "rectH", "boxC", "triC", "tetC", "shell"}}
 
 \* the same point set with the opposite orientation
@@ -241,6 +242,39 @@ BallSurface(F, r) ==
   LET one(v) == RSum(LAMBDA e : RMul(F[v][e], RMul(RPow(r.s[1], TotDeg(e) + 2),
                                      SphereMoment(e[1] + Unit(v)[1], e[2] + Unit(v)[2], e[3] + Unit(v)[3]))), Supp(F[v]))
   IN VPi(RAdd(RAdd(one(1), one(2)), one(3)))
+
+-----------------------------------------------------------------------------
+(* Stokes' theorem on a curved surface spanned by the boundary of a planar region: the graph                 *)
+(*   z = G(x, y) = h + Bump(x, y),   Bump = 0 on the boundary of the region                                   *)
+(* has dS = (-G_x, -G_y, 1) dx dy, so the flux of curl F through it is the integral over the planar region    *)
+(* of the POLYNOMIAL  (curl F)(x, y, G) . (-G_x, -G_y, 1);  it must be the circulation along the boundary,     *)
+(* i.e. CircByStokes (flat surface).                                                                         *)
+Lin(v, c0, c1) == PAdd(PConst(c0), PMono(KVec(v, 1), c1))          \* c0 + c1 x_v
+Bump(r) ==
+  CASE r.k = "ell"  -> \* 1 - ((x - c1)/a)^2 - ((y - c2)/b)^2
+         LET u == Lin(1, RNeg(RDiv(r.c[1], r.s[1])), RInv(r.s[1]))  w == Lin(2, RNeg(RDiv(r.c[2], r.s[2])), RInv(r.s[2]))
+         IN PSub(PSub(PConst(ROne), PMul(u, u)), PMul(w, w))
+    [] r.k = "rect" -> \* (x - x0)(x - x1)(y - y0)(y - y1)
+         PMul(PMul(Lin(1, RNeg(r.c[1]), ROne), Lin(1, RNeg(r.s[1]), ROne)),
+              PMul(Lin(2, RNeg(r.c[2]), ROne), Lin(2, RNeg(r.s[2]), ROne)))
+    [] r.k = "tri"  -> \* u v (1 - u - v), u = (x - c1)/s1, v = (y - c2)/s2
+         LET u == Lin(1, RNeg(RDiv(r.c[1], r.s[1])), RInv(r.s[1]))  w == Lin(2, RNeg(RDiv(r.c[2], r.s[2])), RInv(r.s[2]))
+         IN PMul(PMul(u, w), PSub(PSub(PConst(ROne), u), w))
+Graph(r) == PForce(PAdd(PConst(r.c[3]), Bump(r)))
+\* [ok |-> everything fits below exponent D, val |-> the integral over the graph]
+OverGraph(F, r) ==
+  LET g  == Graph(r)
+      gx == PForce(PDiff(g, 1))  gy == PForce(PDiff(g, 2))
+      C  == [i \in 1..3 |-> PForce(Curl(F)[i])]
+      ok1 == \A i \in 1..3 : SubstSafe(C[i], g)
+      c1 == PSubstZ(C[1], g)  c2 == PSubstZ(C[2], g)  c3 == PSubstZ(C[3], g)
+      ok2 == MulSafe(c1, gx) /\ MulSafe(c2, gy)
+      integrand == PForce(PSub(c3, PAdd(PMul(gx, c1), PMul(gy, c2))))
+  IN  IF ok1 /\ ok2 THEN [ok |-> TRUE, val |-> IntRegion(integrand, [r EXCEPT !.c = <<r.c[1], r.c[2], RZero>>])]
+      ELSE [ok |-> FALSE, val |-> VRat(RZero)]
+\* checked in configurations with D >= 4, where every field of degree <= 2 fits (hence "ok" is required)
+CurvedStokes == reg.k \in PlanarKinds =>
+                  LET o == OverGraph(fld, reg) IN o.ok /\ o.val = CircByStokes(fld, reg)
 
 -----------------------------------------------------------------------------
 (* fields given natively in cylindrical / spherical components, as Cartesian polynomial fields:              *)
